@@ -100,6 +100,7 @@ func (rb *RingBuffer[T]) Len() (l uint) {
 
 // Clear clears the buffer.
 func (rb *RingBuffer[T]) Clear() {
+	clear(rb.buf)
 	rb.full = false
 	rb.cur = 0
 }
